@@ -21,7 +21,7 @@ def generate(r):
     mods = []
     for i in range(k):
         if i > 0 and r.random() < 0.3:
-            parent = r.choice([m for m in mods if "." not in m] or [None])
+            parent = r.choice([m for m in mods if m.count(".") < 2] or [None])
             if parent:
                 mods.append("%s.n%d" % (parent, i))
                 continue
